@@ -178,6 +178,26 @@ CHECKS['C08'] = dict(
          'termination not proved.',
     thorough=True)
 
+CHECKS['C14'] = dict(
+    category='other',
+    text='Proved for every list of byte lines, with any number of hunks: '
+         'only MalformedHunkError escapes (incl. the empty list - no '
+         'UnboundLocalError / ValueError / KeyError / TypeError), it names a '
+         'line of the input, the consumed-line count lies in [0, len] and '
+         'equals len when garbage is ignored (loop invariant with a two-shape '
+         'heap template for the open hunk). Per-hunk geometry and the '
+         'must-raise conditions are covered by a generator with known '
+         'geometry plus single-point damages (labelled bounded). One known '
+         'finding (marker directly after a completed hunk; a pinned test '
+         'fixes that behaviour).',
+    design_ref='5/C14',
+    technique='contract-based deductive verification of the parser core '
+              '(exception freedom, positions, counts) + bounded geometry '
+              'generator',
+    note='Level "other": core proved, geometry bounded, one known finding. '
+         'Assumes lines of at most 4300 bytes (CPython int() digit limit).',
+    thorough=True)
+
 NOT_YET = 'check not built yet (work in progress; see DESIGN.md section 5)'
 NA = {}
 
